@@ -58,10 +58,23 @@ pub fn make_data(c: &SortCase) -> Vec<(u32, u32)> {
                     n + h(i, c.salt) % n.max(1)
                 }
             }
+            // few distinct keys in sorted order (long runs of duplicates); defects are added below
+            10 => {
+                let d = if c.distinct > 0 { c.distinct + 1 } else { c.salt % 30 + 2 } as u64;
+                (i as u64 * d / n.max(1) as u64) as u32
+            }
             _ => i,
         })
         .collect();
-    if c.distinct > 0 && c.arrangement != 5 {
+    if c.arrangement == 10 && n >= 2 {
+        let d = if c.distinct > 0 { c.distinct + 1 } else { c.salt % 30 + 2 };
+        let defects = 3 + h(77, c.salt) % (n / 40 + 8);
+        for s in 0..defects {
+            let at = (h(s, c.salt) % n) as usize;
+            keys[at] = h(s + 1000, c.salt) % d;
+        }
+    }
+    if c.distinct > 0 && c.arrangement != 5 && c.arrangement != 10 {
         for k in keys.iter_mut() {
             *k %= c.distinct;
         }
@@ -195,7 +208,7 @@ impl Check for C18 {
         "C18"
     }
     fn rule(&self) -> String {
-        "slices of (key,id) with lengths {0..3, 19..22, 49..51, 23..2000, 1999..2002, 4001, 4095..4097, 2003..20000, 2^15/2^16/2^17 +-1, 262143, 300000}; arrangements random / sorted / reversed / organ-pipe / saw-tooth / few distinct keys / all equal / sorted-with-swaps / McIlroy antiquicksort adversary comparator (forces heapsort and break_patterns); comparator on key only (strict weak order with ties) or (key,id) total order; own rayon pools of 1,2,3,8,16 threads; cancel flag raised by the comparator at its k-th call (0, small, mid, never); plus an end-to-end sub-check: the same items and pattern through Nucleo with 1/2/4/8 worker threads must give identical match lists in the documented order. Oracle: multiset unchanged always; non-decreasing when 'not cancelled' is reported; 'not cancelled' whenever the flag was never raised; equal to slice::sort for total orders and across thread counts. Non-trivial: length > 20 and input not already sorted. Branch labels come from the SORT_* hook counters; one template per branch runs in every run.".into()
+        "slices of (key,id) with lengths {0..3, 19..22, 49..51, 23..2000, 1999..2002, 4001, 4095..4097, 2003..20000, 2^15/2^16/2^17 +-1, 262143, 300000}; arrangements random / sorted / reversed / organ-pipe / saw-tooth / few distinct keys / all equal / sorted-with-swaps / sorted runs of few distinct keys with 3..n/40 overwritten positions (duplicate-heavy, nearly sorted) / McIlroy antiquicksort adversary comparator (forces heapsort and break_patterns); comparator on key only (strict weak order with ties) or (key,id) total order; own rayon pools of 1,2,3,8,16 threads; cancel flag raised by the comparator at its k-th call (0, small, mid, never); plus an end-to-end sub-check: the same items and pattern through Nucleo with 1/2/4/8 worker threads must give identical match lists in the documented order. Oracle: multiset unchanged always; non-decreasing when 'not cancelled' is reported; 'not cancelled' whenever the flag was never raised; equal to slice::sort for total orders and across thread counts. Non-trivial: length > 20 and input not already sorted. Branch labels come from the SORT_* hook counters; one template per branch runs in every run.".into()
     }
     fn total_cases(&self, tier: Tier) -> u64 {
         match tier {
@@ -225,10 +238,16 @@ impl Check for C18 {
                 }
             }
         }
+        // duplicate-heavy nearly sorted slices of every shape (partition_equal after a partial insertion sort)
+        for n in [120u32, 400, 1000, 2500, 5000, 12000] {
+            for salt in 0..40u32 {
+                v.push(SortCase { n, arrangement: 10, salt: salt * 7919 + n, distinct: salt % 5, threads: if salt % 2 == 0 { 1 } else { 4 }, ..b.clone() });
+            }
+        }
         v
     }
     fn strategy(&self, _tier: Tier) -> BoxedStrategy<SortCase> {
-        (sizes(), prop_oneof![26 => Just(0u8), 7 => Just(1u8), 7 => Just(2u8), 7 => Just(3u8), 7 => Just(4u8), 13 => Just(5u8), 4 => Just(6u8), 11 => Just(7u8), 9 => Just(8u8), 9 => Just(9u8)], any::<u32>(), prop_oneof![60 => Just(0u32), 40 => 1u32..40], proptest::sample::select(vec![1u8, 2, 3, 8, 16]), prop_oneof![45 => Just((None, None)), 4 => Just((Some(0u32), None)), 8 => (1u32..5000).prop_map(|k| (Some(k), None)), 8 => (5000u32..400000).prop_map(|k| (Some(k), None)), 35 => any::<u16>().prop_map(|f| (None, Some(f)))], any::<bool>(), prop_oneof![90 => Just(0u32), 10 => 1u32..6000], proptest::bool::weighted(0.45), 23u32..1200)
+        (sizes(), prop_oneof![26 => Just(0u8), 7 => Just(1u8), 7 => Just(2u8), 7 => Just(3u8), 7 => Just(4u8), 13 => Just(5u8), 4 => Just(6u8), 11 => Just(7u8), 9 => Just(8u8), 9 => Just(9u8), 14 => Just(10u8)], any::<u32>(), prop_oneof![60 => Just(0u32), 40 => 1u32..40], proptest::sample::select(vec![1u8, 2, 3, 8, 16]), prop_oneof![45 => Just((None, None)), 4 => Just((Some(0u32), None)), 8 => (1u32..5000).prop_map(|k| (Some(k), None)), 8 => (5000u32..400000).prop_map(|k| (Some(k), None)), 35 => any::<u16>().prop_map(|f| (None, Some(f)))], any::<bool>(), prop_oneof![90 => Just(0u32), 10 => 1u32..6000], proptest::bool::weighted(0.45), 23u32..1200)
             .prop_map(|(n, arrangement, salt, distinct, threads, (cancel_at, cancel_frac), total, nucleo_items, small, small_n)| {
                 // cancellation inside small (sequential) sorts is only reachable with small slices
                 let n = if cancel_frac.is_some() && small { small_n } else { n };
